@@ -30,6 +30,8 @@ for d in sorted(glob.glob(ROOT + "/C*")):
     origin = open(os.path.join(d, "ORIGIN.txt")).read().strip() if os.path.exists(os.path.join(d, "ORIGIN.txt")) else ""
     if origin:
         want = "[12]"
+    if ab == "z":
+        want = "K"
     sec = next((s for s in secs if re.match(r'#+ *Mutation %s\b' % want, s)), None)
     if sec is None:
         sec = notes
@@ -47,7 +49,7 @@ for d in sorted(glob.glob(ROOT + "/C*")):
         "needs_to_manifest": need,
         "confirmed": "tools/confirm_seed.sh seeded/%s/patch.diff seeded/%s/demo_test.go.txt: patch applies to /repo HEAD, `go test .` (existing suite) passes with it, the demonstration test fails with it and passes without it" % (sid, sid),
         "blind_result": blind.get(sid, "not blind (rounds 1 and 2: the generators were strengthened after reading the seeding agent's summary, before the first run)"),
-        "origin": origin or ("round %d, per-property seeding" % {"a": 1, "b": 1, "c": 2, "d": 2, "e": 3, "f": 3, "g": 4, "h": 4}.get(ab, 0)),
+        "origin": origin or ("round %d, per-property seeding" % {"a": 1, "b": 1, "c": 2, "d": 2, "e": 3, "f": 3, "g": 4, "h": 4, "z": 6}.get(ab, 0)),
         "rebased": open(os.path.join(d, "REBASED.txt")).read().strip() if os.path.exists(os.path.join(d, "REBASED.txt")) else None,
         "ran": "tools/run_seed.sh %s %s  (git -C /repo apply; ./check %s --tier quick; git -C /repo checkout -- .)" % (sid, pid, pid),
         "result": (("caught: exit 1, VIOLATION with a concrete failing input" if found else "caught: exit 1, VIOLATION ... no-failing-input-found (an obligation / tie broke, the search found no failing input)") if r and r["rc"] == 1 else
@@ -56,7 +58,7 @@ for d in sorted(glob.glob(ROOT + "/C*")):
     json.dump(meta, open(os.path.join(d, "meta.json"), "w"), indent=1)
     rows.append(meta)
 with open(ROOT + "/RESULTS.md", "w") as f:
-    f.write("# Seeded changes: latest run of each seed (quick tier; seeded/last_sweep.txt names the sweep each line comes from; blind outcomes of rounds 3-5 are in seeded/round*_blind*.txt and in each meta.json)\n\n| seed | change | result |\n|---|---|---|\n")
+    f.write("# Seeded changes: latest run of each seed (quick tier; seeded/last_sweep.txt names the sweep each line comes from; blind outcomes of rounds 3-6 are in seeded/round*_blind*.txt and in each meta.json)\n\n| seed | change | result |\n|---|---|---|\n")
     for m in rows:
         f.write("| %s | %s | %s |\n" % (m["seed"], m["change"].replace("|", "/")[:140], m["result"]))
 print(len(rows), "seeds;", sum(1 for m in rows if m["result"].startswith("caught: exit 1, VIOLATION with")), "with failing input;",
